@@ -142,6 +142,13 @@ class P(framework.Prop):
             out.append("parse " + wire.s("a" + chr(b) + "b"))
             out.append("parse " + wire.s(chr(b) + "b"))
             out.append("parse " + wire.s("{a" + chr(b) + ": a}"))
+        # no character outside ASCII starts or continues an unquoted identifier, whatever Unicode thinks of it (letters, digits, marks, spaces)
+        for ch in ["\u00e9", "\u00df", "\u03a9", "\u0436", "\u540d", "\u00b2", "\u0661", "\u00aa", "\u00b5", "\uff21", "\uff10", "\u0301", "\u00a0", "\u2003", "\u200b",
+                   "\ufeff", "\u2160", "\u1e9e", "\U0001d400", "\U0001f600", "\u0131", "\u212a", "\u017f", "\u203f", "\u00b7", "\u0085", "\u2028"]:
+            for e in [ch, ch + "a", "a" + ch, "a" + ch + "b", "_" + ch, ch + "_1", "a." + ch, ch + ".a", "a." + ch + "b", "[" + ch + "]", "{" + ch + ": a}", "{a: " + ch + "}",
+                      "f(" + ch + ")", ch + "(a)", "a" + ch + "(b)", "a[?" + ch + "]", "!" + ch, "a || " + ch, "a." + ch + "[0]", "1" + ch, "a[1" + ch + "]", "a[" + ch + "1]"]:
+                out.append("parse " + wire.s(e))
+                out.append("search %s %s" % (wire.s(e), wire.val({ch: "marker", ch + "a": 1, "a" + ch: 2, "a": {ch: 3, ch + "b": 4}})))
         L = 4 if tier == "quick" else 6
         small = ["'", "\\", "`", '"', "a", "\n", "u"]
         for n in range(0, L + 1):
